@@ -326,6 +326,13 @@ func genC16(tier, out string, sum *Summary) {
 		case 2: // quoted identifier selects the member named s
 			doc := map[string]any{s: json.Number("1"), s + "x": json.Number("2")}
 			run(quotedIdent(s), doc, json.Number("1"), "quoted-identifier")
+			// the same with some code points written as \\uXXXX escapes, in identifiers and in JSON string literals
+			escapeSome = true
+			s2 := s + string(pick([]rune{0xe9, 0xff, 0x80, 0x7f, 0x100, 0x7ff, 0x800, 0xffff, 0x10000, 0x10ffff, 'A'}))
+			run(quotedIdent(s2), map[string]any{s2: json.Number("3")}, json.Number("3"), "quoted-identifier-escapes")
+			run("`"+strings.ReplaceAll(quotedIdent(s2), "`", "\\`")+"`", nil, s2, "json-string-escapes")
+			run("{"+quotedIdent(s2)+": `1`}", nil, map[string]any{s2: json.Number("1")}, "hash-key-escapes")
+			escapeSome = false
 		case 3: // JSON value literal, numbers kept at full precision
 			v := literalValue(2)
 			run("`"+strings.ReplaceAll(toJSONPlain(v), "`", "\\`")+"`", nil, v, "json-literal")
@@ -348,11 +355,22 @@ func genC16(tier, out string, sum *Summary) {
 	sum.Rule = "random Unicode strings (quotes, backslashes, backticks, control characters, astral code points, U+FFFD, runs of escape-like text) written as raw string, JSON string literal and quoted identifier must evaluate to the string / select the member; random JSON values between backticks evaluate to themselves with number text preserved; untouched raw-string escapes are preserved; every case also compared with the model; distinct = distinct (syntax, expression)"
 }
 
+var escapeSome bool
+
 func quotedIdent(s string) string {
-	// JSON escaping without HTML escaping
+	// JSON escaping without HTML escaping; any code point may also be written as a \\uXXXX escape (or surrogate pair)
 	var b strings.Builder
 	b.WriteByte('"')
 	for _, r := range s {
+		if escapeSome && rng.Intn(3) == 0 {
+			if r >= 0x10000 {
+				r -= 0x10000
+				fmt.Fprintf(&b, `\u%04x\u%04X`, 0xd800+(r>>10), 0xdc00+(r&0x3ff))
+			} else {
+				fmt.Fprintf(&b, pick([]string{`\u%04x`, `\u%04X`}), r)
+			}
+			continue
+		}
 		switch {
 		case r == '"':
 			b.WriteString(`\"`)
